@@ -134,6 +134,7 @@ type executor struct {
 	names    map[string]int
 	curCtx   string
 	curNode  *node
+	backEdgeStates []*state // states of the individual back edges while a loop's invariants are re-checked
 	depth    int
 	abstracted map[string]int
 	inlined  map[string]bool
